@@ -48,6 +48,11 @@ EXPLANATION += (
     'C01 are evaluated here as well.'
 )
 
+EXPLANATION += (
+    ' Round 3: node tables keyed by (level, label); zipped lists in '
+    'lock-step.'
+)
+
 RULE_TEXT = (
     "one obligation per consumer of the tree, per reducer call, per "
     "drop_level(<config>) call site, per flatten rebinding")
